@@ -37,6 +37,9 @@ def hex (l : List Char) : String :=
   let bs := (String.ofList l).toUTF8.toList
   if bs.isEmpty then "-" else String.ofList (bs.flatMap fun b => [hexDigit (b.toNat / 16), hexDigit (b.toNat % 16)])
 
+def sortByStr {α} (key : α → List Char) (l : List α) : List α :=
+  l.mergeSort fun a b => decide (String.ofList (key a) ≤ String.ofList (key b))
+
 def asciiPreds : Camel.Preds :=
   ⟨fun c => 'a' ≤ c && c ≤ 'z', fun c => 'A' ≤ c && c ≤ 'Z', fun c => '0' ≤ c && c ≤ '9'⟩
 
@@ -239,12 +242,13 @@ def parseTags (s : String) : TagMap :=
     | [k, vs] => (L k, (vs.splitOn "|").map fun v => if v == "_" then [] else L v)
     | _ => (L kv, [[]])
 
-/-- reactions: `gen@pkg@type:<v><r>[d]` — verdict o/s/i/f, render n/v/x, optional `d` = registers a rendering defer -/
+/-- reactions: `gen@pkg@type:<v><r>[d|e]` — verdict o/s/i/f, render n/v/x, optional `d` = registers a
+    rendering defer, `e` = registers a failing defer -/
 structure React where
   key : String
   verdict : Verdict
-  renders : List Str
-  defers : List DeferCb
+  render : Char
+  deferK : Option Char
 
 def parseReacts (s : String) : List React :=
   if s == "-" then [] else
@@ -254,18 +258,27 @@ def parseReacts (s : String) : List React :=
       match code.toList with
       | v :: rk :: rest =>
         let verdict := if v == 's' then Verdict.skip else if v == 'i' then .ignore else if v == 'f' then .fail else .ok
-        let renders : List Str := if rk == 'v' then [L "V"] else if rk == 'x' then [L "X"] else []
-        let defers : List DeferCb := if rest == ['d'] then [⟨0, [L "D"], false⟩] else if rest == ['e'] then [⟨0, [], true⟩] else []
-        some ⟨k, verdict, renders, defers⟩
+        some ⟨k, verdict, rk, rest.head?⟩
       | _ => none
     | _ => none
 
+/-- the recording generator of the harness as a state machine: state = (calls so far, helper emitted) -/
 def mkGen (reacts : List React) (name : String) (hasAlias : Bool) : Gen :=
-  let f : Unit → Str → TypeObj → Unit × Reaction := fun _ pkg t =>
+  let f : Nat × Bool → Str → TypeObj → (Nat × Bool) × Reaction := fun st pkg t =>
+    let n := st.1
     match reacts.find? (fun r => r.key == name ++ "@" ++ S pkg ++ "@" ++ S t.name) with
-    | some r => ((), ⟨r.renders, r.defers, r.verdict⟩)
-    | none => ((), ⟨[], [], .ok⟩)
-  { name := L name, σ := Unit, new := (), onType := f, onAlias := if hasAlias then some f else none }
+    | some r =>
+      let renders : List Str :=
+        if r.render == 'v' then
+          (if st.2 then [] else [L ("// helper of " ++ name ++ "\n")]) ++ [L ("var _" ++ name ++ "_" ++ S t.name ++ "_" ++ toString n ++ " = 1\n")]
+        else if r.render == 'x' then [L "func {\n"] else []
+      let defers : List DeferCb := match r.deferK with
+        | some 'd' => [⟨0, [L ("// deferred " ++ name ++ " " ++ S t.name ++ "\n")], false⟩]
+        | some 'e' => [⟨0, [], true⟩]
+        | _ => []
+      ((n + 1, st.2 || r.render == 'v'), ⟨renders, defers, r.verdict⟩)
+    | none => ((n + 1, st.2), ⟨[], [], .ok⟩)
+  { name := L name, σ := Nat × Bool, new := (0, false), onType := f, onAlias := if hasAlias then some f else none }
 
 def parsePkg (s : String) : Pkg :=
   match s.splitOn "^" with
@@ -292,6 +305,7 @@ def showEffect : Effect → String
 def run (fxB : Bool) (args : List String) : String :=
   match args with
   | [flags, prev, globals, gens, reacts, pkgs] =>
+    let pkgs := if pkgs == "" then "-" else pkgs
     let fl := flags.toList
     let a : Args := { globals := parseTags globals, base := L "zz_generated", all := fl[0]! == '1', force := fl[1]! == '1', emptyHashChanged := fxB }
     let prevSum : Option (List (Str × Str)) :=
@@ -305,17 +319,26 @@ def run (fxB : Bool) (args : List String) : String :=
       | [n, _] => mkGen rs n true
       | _ => mkGen rs g false
     let ps := (pkgs.splitOn ";").map parsePkg
-    let parses : Str → Bool := fun t => !(t.contains 'X')
+    let parses : Str → Bool := fun t => (TypeRef.lastIndexOfSub (L "func {") t).isNone
     let r := execute parses id a (L "root") prevSum ps gs
-    let calls := ps.flatMap fun p => gs.flatMap fun g =>
+    let calls := (sortedPkgs ps).flatMap fun p => gs.flatMap fun g =>
       if (a.all || p.direct) && pkgChanged a (if a.all then prevSum else none) p then
         match dispatch a p g (sortedTypes p.types) { st := g.new, body := [], defers := [], ignore := false, calls := [] } with
         | .ok s => s.calls.map fun c => S g.name ++ "@" ++ S p.path ++ "@" ++ S c.1 ++ (if c.2 then "!" else "")
         | .error _ => ["?"]
       else []
+    let bodies := r.1.filterMap fun e => match e with
+      | .write _ _ g body => some (g, body)
+      | _ => none
+    -- bodies keyed pkgpath/gen: recover the package path from the directory
+    let bodyStrs := r.1.filterMap fun e => match e with
+      | .write d _ g body => (ps.find? (fun p => p.dir == d)).map fun p => S p.path ++ "/" ++ S g ++ "=" ++ hex body
+      | _ => none
+    let _ := bodies
     "result=" ++ (match r.2 with | none => "ok" | some e => showErr e) ++
     " effects=" ++ String.intercalate "," (r.1.map showEffect) ++
-    " calls=" ++ String.intercalate "," calls
+    " calls=" ++ String.intercalate "," calls ++
+    " bodies=" ++ String.intercalate "," (sortByStr String.toList bodyStrs)
   | _ => "bad-op"
 end ExecProbe
 
@@ -415,9 +438,6 @@ end C09Drv
 
 namespace C15Drv
 open TypeRef
-def sortByStr {α} (key : α → List Char) (l : List α) : List α :=
-  l.mergeSort fun a b => decide (String.ofList (key a) ≤ String.ofList (key b))
-
 def trackerCfg (fx : String → Bool) : Tracker.Cfg :=
   if fx "F8" then LocalName.cfgF stdTab true else LocalName.cfgP stdTab true
 
@@ -501,7 +521,16 @@ def handle (fx : String → Bool) (line : String) : String :=
     (match Resolver.resultsOf funcs (fx == "1") 200 f.toNat! with
      | none => "diverge"
      | some rs => "(" ++ String.intercalate ", " (rs.map fun r => String.intercalate " | " (r.map showRes)) ++ ")")
-  | "exec" :: args => ExecProbe.run fxB args
+  | "sumrt" :: kvs =>
+    let rec pairs : List String → List (List Char × List Char)
+      | k :: v :: r => (unhex k, unhex v) :: pairs r
+      | _ => []
+    let m := pairs kvs
+    let b := SumFile.bytes m
+    let loaded := SumFile.loadEntries b
+    let keys := (sortByStr id (loaded.map (·.1))).eraseDups
+    "bytes=" ++ hex b ++ " load=" ++ String.intercalate "," (keys.map fun k => hex k ++ "=" ++ hex ((SumFile.loadLookup b k).getD []))
+  | "exec" :: args => ExecProbe.run (fx "F17") args
   | "vlit" :: _ :: toks => ValProbe.run fx1 toks
   | ["infl", which, h] => InflProbe.run (fx "F2") (fx "F3") which h
   | "dcopy" :: _ :: prev :: decls => DcProbe.run fx1 prev decls
